@@ -158,10 +158,22 @@ def check_entries_linewise(ctx: Ctx, rule: str, G):
         for fo in folds:
             body = fo[4]
             acc = ("acc", fo[1])
-            items = body[1] if body[0] == "list" else (body,)
-            for it in items:
-                if it == ("spread", acc) or it == acc:
-                    continue  # the results so far, handed on unchanged
-                if any(a_[:2] == acc for a_ in _av.find_all(it, "acc")):
-                    carried.append(it)
+
+            def offending(b_):
+                """sub-terms of one step that read the accumulator other than to hand it on extended"""
+                if b_[0] == "if" and len(b_) == 4:
+                    # the decision itself must not look at the results so far; each branch is a step of its own
+                    return ([b_[1]] if any(a_[:2] == acc for a_ in _av.find_all(b_[1], "acc")) else []) + offending(b_[2]) + offending(b_[3])
+                if b_[0] == "op" and b_[1] == "+" and acc in (b_[2], b_[3]):
+                    other = b_[3] if b_[2] == acc else b_[2]  # acc + <new entries>
+                    return [other] if any(a_[:2] == acc for a_ in _av.find_all(other, "acc")) else []
+                out_ = []
+                for it in (b_[1] if b_[0] == "list" else (b_,)):
+                    if it == ("spread", acc) or it == acc:
+                        continue  # the results so far, handed on unchanged
+                    if any(a_[:2] == acc for a_ in _av.find_all(it, "acc")):
+                        out_.append(it)
+                return out_
+
+            carried.extend(offending(body))
         ctx.check(not carried, rule, key, "each entry is made from its own line only", f"TreeToODE.{h}: an entry is built from state carried over from the lines before it (`{_av.show(carried[0])[:110] if carried else ''}`): a unit / comment / component set on one line is inherited by the next, so permuting the lines of a block changes the atoms", f.where())
